@@ -592,6 +592,10 @@ class tcp (packet_base):
     while i < self.hdr_len:
       # Special case single-byte options
       if arr[i] == tcp_opt.EOL:
+        # The rest of the option area is padding.  Keep it, so that the
+        # header is packed again with the length it came with.
+        self.options.extend(tcp_opt(tcp_opt.EOL, None)
+                            for _ in range(self.hdr_len - i))
         break
       if arr[i] == tcp_opt.NOP:
         self.options.append(tcp_opt(tcp_opt.NOP,None))
